@@ -725,9 +725,11 @@ theorem C15_of_length_regressions :
     raised (ofLength ['a'] (-1) (some 1) none) = some (.lib .invalidStateError) := by decide
 
 /-- `from_substrings(Σ, S, contains, must_be_suffix)` (Aho–Corasick) for every duplicate-free
-alphabet, every list of patterns over it — in **every** insertion order, with patterns that are
-prefixes / suffixes / infixes of one another, with the empty pattern (early return, the repair of
-finding F10b) — and both values of both flags: the trie, the failure links and the output links
+alphabet, **every** list of patterns — over the alphabet or with symbols outside it (trie nodes
+below such a symbol get a label but no row: the second BFS only follows symbols of `Σ`, and
+`end_state = len(labels)` stays above every label, the repair of finding F20), in **every**
+insertion order, with patterns that are prefixes / suffixes / infixes of one another, with the
+empty pattern (early return, the repair of finding F10b) — and both values of both flags: the trie, the failure links and the output links
 are built without error and the result is a valid complete DFA accepting exactly the words over
 `Σ` that contain (resp. end with) one of the patterns, or exactly the others when
 `contains = False`.  (The documentation does not promise minimality.)  Behind it
@@ -737,10 +739,11 @@ in the trie and makes the output chain non-empty iff a non-empty suffix is a pat
 (`acFailBfs_spec`, with the BFS-order invariant "everything not deeper than the head of the
 queue is linked"); the goto function leads to the node of the longest suffix of `x·a` in the
 trie (`acGoto_spec`); the state after `w` is the node of the longest suffix of `w` that is a
-prefix of a pattern (`acState_spec`), absorbing in substring mode into the fresh state
-`len(labels)` (`acSub_inv`). -/
-theorem C15_from_substrings (syms : List α) (hsyms : syms.Nodup) (pats : List (List α))
-    (contains sf : Bool) (hover : ∀ p ∈ pats, ∀ c ∈ p, c ∈ syms) :
+prefix of a pattern (`acState_spec`) — for a word over `Σ` that node is one of the tabulated
+ones (`acState_vis`, `Tabulated`: one row per node whose string is over `Σ`) —, absorbing in
+substring mode into the fresh state `len(labels)` (`acSub_inv`). -/
+theorem C15_from_substrings_general (syms : List α) (hsyms : syms.Nodup) (pats : List (List α))
+    (contains sf : Bool) :
     Builds (fromSubstrings syms pats contains sf) syms
       (fun w => (∃ p ∈ pats, if sf then p <:+ w else p <:+: w) ↔ contains = true) := by
   by_cases hne : [] ∈ pats
@@ -752,7 +755,7 @@ theorem C15_from_substrings (syms : List α) (hsyms : syms.Nodup) (pats : List (
     · exact List.nil_infix
     · exact List.nil_suffix
   · obtain ⟨nodes, paths, acc, hL, hTab, he⟩ :=
-      AC.fromSubstrings_eq syms pats contains sf hsyms hover hne
+      AC.fromSubstrings_eq syms pats contains sf hsyms hne
     cases sf with
     | true =>
       refine builds_of syms he (AC.acSuffix_wf syms acc hL hTab contains) rfl (fun w => ?_)
@@ -762,6 +765,47 @@ theorem C15_from_substrings (syms : List α) (hsyms : syms.Nodup) (pats : List (
       refine builds_of syms he (AC.acSub_wf syms acc hL hTab contains) rfl (fun w => ?_)
       rw [AC.acSub_accepts syms acc hL hTab contains w]
       simp
+
+/-- The same for patterns over the alphabet (the form used by C19). -/
+theorem C15_from_substrings (syms : List α) (hsyms : syms.Nodup) (pats : List (List α))
+    (contains sf : Bool) (hover : ∀ p ∈ pats, ∀ c ∈ p, c ∈ syms) :
+    Builds (fromSubstrings syms pats contains sf) syms
+      (fun w => (∃ p ∈ pats, if sf then p <:+ w else p <:+: w) ↔ contains = true) :=
+  C15_from_substrings_general syms hsyms pats contains sf
+
+/-- Patterns with symbols outside the alphabet need no special treatment in the statement: a
+word over `Σ` cannot contain them, so the language is that of the patterns over `Σ` alone. -/
+theorem C15_from_substrings_foreign (syms : List α) (hsyms : syms.Nodup) (pats : List (List α))
+    (contains sf : Bool) :
+    Builds (fromSubstrings syms pats contains sf) syms
+      (fun w => (∃ p ∈ pats.filter (fun p => p.all fun c => decide (c ∈ syms)),
+        if sf then p <:+ w else p <:+: w) ↔ contains = true) := by
+  obtain ⟨d, h1, h2, h3, h4⟩ := C15_from_substrings_general syms hsyms pats contains sf
+  refine ⟨d, h1, h2, h3, fun w => ?_⟩
+  rw [h4]
+  refine and_congr_right fun hw => ?_
+  have : (∃ p ∈ pats, if sf then p <:+ w else p <:+: w) ↔
+      (∃ p ∈ pats.filter (fun p => p.all fun c => decide (c ∈ syms)),
+        if sf then p <:+ w else p <:+: w) := by
+    constructor
+    · rintro ⟨p, hp, h⟩
+      refine ⟨p, List.mem_filter.mpr ⟨hp, ?_⟩, h⟩
+      rw [List.all_eq_true]
+      intro c hc
+      have hsub : c ∈ w := by
+        cases sf
+        · exact (List.IsInfix.subset h) hc
+        · exact (List.IsSuffix.subset h) hc
+      exact decide_eq_true (hw c hsub)
+    · rintro ⟨p, hp, h⟩
+      exact ⟨p, (List.mem_filter.mp hp).1, h⟩
+  show (_ ↔ contains = true) ↔ (_ ↔ contains = true)
+  rw [this]
+
+example : Builds (fromSubstrings ['a', 'b'] [['c', 'c'], ['a', 'b'], ['b', 'c', 'a']] true false) ['a', 'b']
+    (fun w => (∃ p ∈ [['c', 'c'], ['a', 'b'], ['b', 'c', 'a']], if false then p <:+ w else p <:+: w) ↔
+      true = true) :=
+  C15_from_substrings_general _ (by decide) _ _ _
 
 example : Builds (fromSubstrings ['a', 'b'] [['a', 'a', 'b'], ['a', 'b'], ['b', 'b']] true true) ['a', 'b']
     (fun w => (∃ p ∈ [['a', 'a', 'b'], ['a', 'b'], ['b', 'b']], if true then p <:+ w else p <:+: w) ↔
